@@ -464,6 +464,38 @@ def check_conversions(ctx, F):
     ctx.rule("conv.name-preserving", n, floor=3, note="enum-to-enum conversion matches in ir_printer: same-named variants")
 
 
+# lossy integer casts that exist in the IR printer today, each confirmed by reading (one line of reason per exception)
+LOSSY_OK = {
+    ("crate::ir_printer::container::i128_to_u32", "i128", "u32"): "dominated by the explicit saturation guards (v < 0, v >= u32::MAX) in the same function",
+    ("crate::ir_printer::container::IrStructMemberDefinition::from_definition", "i128", "u8"): "size_of_fields_before_size of a manual size field: a byte offset inside a header-sized prefix",
+    ("crate::ir_printer::container::IrTestCase::from_test_case", "usize", "u32"): "line numbers of wowm source files",
+    ("crate::ir_printer::definer::definer_to_ir", "usize", "u32"): "line numbers of wowm source files",
+    ("crate::ir_printer::IrFileInfo::from_file_info", "usize", "u32"): "line numbers of wowm source files",
+    ("crate::ir_printer::IrObjects::from_regular_objects", "u32", "u8"): "opcodes of login messages, which are one byte on the wire",
+}
+
+
+def check_lossless(ctx, F):
+    """values of the wowm model may reach the IR only through value-preserving integer conversions"""
+    from ..intconv import INT_TYPES, int_range
+    n = 0
+    for fn in F.all("fn", lambda p: p.startswith("crate::ir_printer::")):
+        if fn.get("hir") is None:
+            continue
+        owner = re.sub(r"::\{closure#\d+\}", "", fn["path"])
+        for x in H.walk(fn["hir"]):
+            if H.tag(x) == "cast" and x[2] in INT_TYPES and x[3] in INT_TYPES:
+                n += 1
+                a, b = int_range(x[2]), int_range(x[3])
+                if b[0] <= a[0] and a[1] <= b[1]:
+                    continue
+                if (owner, x[2], x[3]) in LOSSY_OK:
+                    continue
+                ctx.violate("ir.lossless-cast", f"{owner}|{x[2]}->{x[3]}|{H.short(x[4], maxlen=40)}",
+                            f"{owner}: `{H.short(x[4], maxlen=60)} as {x[3]}` narrows / reinterprets a {x[2]} on its way into the IR: values outside {x[3]} (e.g. negative enumerator values) are written as a different number than the wowm text states", fn["file"], fn["line"])
+    ctx.rule("ir.lossless-cast", n, floor=10, note=f"integer casts in ir_printer; {len(LOSSY_OK)} tabled lossy casts with reasons")
+
+
 def run(ctx):
     F = facts("wow_message_parser")
     schema = json.load(open(SCHEMA))
@@ -481,6 +513,7 @@ def run(ctx):
     if unreached:
         ctx.sample({"serialize_impls_not_reachable_from_IrObjects": unreached[:10]})
     check_conversions(ctx, F)
+    check_lossless(ctx, F)
     ctx.sample({"types": sorted(t.split("::")[-1] for t in types)[:40]})
     ctx.assume("serde_json writes what the Serialize impls hand it (strings, numbers, objects in call order); JSON Typedef semantics as in RFC 8927")
     ctx.assume("faithfulness of the emitted IR to the 2,050 objects needs the emitted file and is not decided (the committed file is an empty placeholder)")
